@@ -23,6 +23,7 @@ var (
 	errCannotBindChannel                   = errors.New("cannot bind channel")
 	errChannelBindBadRequest               = errors.New("channel bind bad request")
 	errChannelBindTransactionFailed        = errors.New("channel bind transaction failed")
+	errPayloadTooLarge                     = errors.New("payload does not fit into a TURN message")
 )
 
 type timeoutError struct {
